@@ -677,6 +677,17 @@ def gen_files(rng, schemas):
     g = RuleGen(rng, schemas)
     r = rng
     pkgs = [s["pkg"] for s in schemas]
+    if r.random() < 0.28 and g.bs:
+        # one rule only: the runs on which the rule contracts are judged against the input
+        b = r.choice(g.bs)
+        g.bs = [x for x in g.bs if x["pkg"] == b["pkg"]]
+        if r.random() < 0.3:
+            rules = ([g.brule(r.choice(["omit", "rename", "duplicate", "duplicate"]))], [])
+        else:
+            rules = ([], [g.orule(r.choice(["omit", "rename", "duplicate", "add_comments", "unfold_boolean", "array_to_append",
+                                            "map_to_index", "struct_fields_as_arguments", "struct_fields_as_options",
+                                            "disjunction_as_options", "rename_arguments"]), b)])
+        return [{"language": r.choice(["all", "go"]), "package": b["pkg"], "builders": rules[0], "options": rules[1]}]
     nfiles = r.choice([1, 1, 1, 2, 2, 3])
     files = []
     for _ in range(nfiles):
@@ -783,7 +794,9 @@ def seed_jobs():
             {"name": "name", "type": S("string", cs=[{"op": "minLength", "args": [irgen.dint(1, "int64")]}]), "req": True},
             {"name": "flag", "type": S("bool", **{"def": dbool(True)}), "req": True},
             {"name": "labels", "type": {"k": "map", "i": S("string"), "v": S("bool")}, "req": False},
-            {"name": "choice", "type": {"k": "disj", "branches": [S("string"), S("int64")]}, "req": False}]}},
+            {"name": "choice", "type": {"k": "disj", "branches": [S("string"), S("int64")]}, "req": False},
+            {"name": "either", "type": {"k": "disj", "branches": [{"k": "map", "i": S("string"), "v": S("bool")}, S("string")]}, "req": False},
+            {"name": "sub", "type": {"k": "disj", "branches": [{"k": "ref", "pkg": "alpha", "name": "Bar"}, S("string")]}, "req": False}]}},
         {"name": "Bar", "type": {"k": "struct", "fields": [
             {"name": "foo", "type": {"k": "ref", "pkg": "alpha", "name": "Foo"}, "req": True},
             {"name": "id", "type": S("int64"), "req": True}]}}]}]
@@ -826,8 +839,27 @@ def seed_jobs():
         (base, "alpha", [], [{"unfold_boolean": {"by_name": "Foo.flag", "true_as": "on", "false_as": "off"}}]),
         (base, "alpha", [], [{"struct_fields_as_arguments": {"by_name": "Bar.foo"}}]),
         (base, "alpha", [], [{"struct_fields_as_options": {"by_name": "Bar.foo", "fields": ["tags", "name"]}}]),
+        (base, "alpha", [], [{"array_to_append": {"by_name": "foo.TAGS"}}]),
+        (base, "alpha", [], [{"map_to_index": {"by_builder": "Foo.labels"}}]),
+        (base, "alpha", [], [{"rename": {"by_name": "Foo.flag", "as": "enabled"}}]),
+        (base, "alpha", [], [{"omit": {"by_names": {"object": "Foo", "options": ["tags", "NAME"]}}}]),
+        (base, "alpha", [], [{"duplicate": {"by_name": "Foo.flag", "as": "flagAgain"}}]),
+        (base, "alpha", [], [{"add_comments": {"by_name": "Foo.flag", "comments": ["a flag"]}}]),
+        (base, "alpha", [{"rename": {"by_object": "foo", "as": "FooBuilder"}}], []),
+        (base, "alpha", [{"omit": {"by_name": "BAR"}}], []),
+        # rules that assume the shape FromAST derives (argument type = target type, one argument)
+        (base, "alpha", [], [{"disjunction_as_options": {"by_name": "Foo.either"}}, {"map_to_index": {"by_name": "Foo.map"}}]),
+        (base, "alpha", [], [{"disjunction_as_options": {"by_name": "Foo.sub"}}, {"struct_fields_as_options": {"by_name": "Foo.bar"}}]),
+        (base, "alpha", [], [{"disjunction_as_options": {"by_name": "Foo.sub"}}, {"struct_fields_as_arguments": {"by_name": "Foo.bar"}}]),
     ]
     jobs = []
+    two_pass = {"schemas": copy.deepcopy(base), "language": "go", "via": "direct", "files": [
+        {"language": "all", "package": "alpha", "builders": [], "options": [{"map_to_index": {"by_name": "Foo.labels"}}]},
+        {"language": "go", "package": "alpha", "builders": [{"promote_options_to_constructor": {"by_object": "Foo", "options": ["labels"]}}],
+         "options": []}]}
+    for f in two_pass["files"]:
+        f["yaml"] = render_yaml(f)
+    jobs.append(two_pass)
     for n, (schemas, pkg, brs, ors) in enumerate(cases):
         f = {"language": "all", "package": pkg, "builders": copy.deepcopy(brs), "options": copy.deepcopy(ors)}
         f["yaml"] = render_yaml(f)
